@@ -33,9 +33,7 @@ theorem step_hist_grows {cfg : Cfg} {s s' : State} {t : Tid} {a : Act}
         cases s.cache (r, tp) with
         | some v =>
           simp only
-          split
-          · exact ⟨[_], rfl⟩
-          · exact ⟨[_], retExc_hist ..⟩
+          exact ⟨[_], retExc_hist ..⟩
         | none =>
           simp only
           cases s.wip (r, tp) with
@@ -86,12 +84,10 @@ theorem step_hist_grows {cfg : Cfg} {s s' : State} {t : Tid} {a : Act}
     · cases h; exact ⟨[_], retExc_hist ..⟩
     · split at h
       · split at h
-        · split at h
-          · cases h; exact ⟨[_], rfl⟩
-          · cases h; exact ⟨[_], retExc_hist ..⟩
+        · cases h; exact ⟨[_], retExc_hist ..⟩
         · cases h; exact ⟨[_], retExc_hist ..⟩
         · cases h
-        · cases h; exact ⟨[_], rfl⟩
+        · cases h; exact ⟨[_], retExc_hist ..⟩
       · cases h
     · cases h
 
@@ -168,10 +164,7 @@ theorem tyOK_step {cfg : Cfg} {A B : Ty} {s s' : State} {t : Tid} {a : Act}
     simp only at h
     split at h
     · cases h
-      obtain ⟨res, _, hthr, _⟩ := pairCall_thr_hist cfg s t r A' B' a b
-      rcases hthr with e | e
-      · rw [e]; exact hs
-      · exact key _ _ e hdead
+      rw [pairCall_thr]; exact hs
     · cases h
   | callExcl o tp path =>
     simp only at h
@@ -185,9 +178,7 @@ theorem tyOK_step {cfg : Cfg} {A B : Ty} {s s' : State} {t : Tid} {a : Act}
         cases s.cache (r, tp) with
         | some v =>
           simp only
-          split
-          · exact key _ _ rfl hdead
-          · exact key _ _ (retExc_thr ..) ((hs t).deliver _)
+          exact key _ _ (retExc_thr ..) ((hs t).deliver _)
         | none =>
           simp only
           cases s.wip (r, tp) with
@@ -262,12 +253,10 @@ theorem tyOK_step {cfg : Cfg} {A B : Ty} {s s' : State} {t : Tid} {a : Act}
       have hr : TyOK A B rest := by have := hs t; rw [e] at this; exact this.tail
       split at h
       · split at h
-        · split at h
-          · cases h; exact key _ _ rfl hdead
-          · cases h; exact key _ _ (retExc_thr ..) (hr.deliver _)
+        · cases h; exact key _ _ (retExc_thr ..) (hr.deliver _)
         · cases h; exact key _ _ (retExc_thr ..) (hr.deliver _)
         · cases h
-        · cases h; exact key _ _ rfl hdead
+        · cases h; exact key _ _ (retExc_thr ..) (hr.deliver _)
       · cases h
     · cases h
 
@@ -300,14 +289,10 @@ theorem step_cache_changes {cfg : Cfg} (hf : cfg.fixed = true) {s s' : State} {t
         split
         · split
           · rfl
-          · split
-            · split <;> rfl
-            · simp [upd_apply, h2]
+          · simp [upd_apply, h2]
         · simp only
           split
-          · split
-            · simp [upd_apply, h1]
-            · simp [upd_apply, h1]
+          · simp [upd_apply, h1]
           · simp [upd_apply, h1, h2]
       exact Classical.byContradiction fun hn => hk (this k hn)
     · cases h
@@ -353,7 +338,7 @@ theorem step_cache_changes {cfg : Cfg} (hf : cfg.fixed = true) {s s' : State} {t
     · cases h; simp at hk
     · split at h
       · split at h
-        · split at h <;> cases h <;> simp at hk
+        · cases h; simp at hk
         · cases h; simp at hk
         · cases h
         · cases h; simp at hk
